@@ -1,6 +1,6 @@
 """C03 - the lattice contains exactly the formal concepts of the context, once each."""
 
-from vlib import bigcases, lib, tablecheck
+from vlib import bigcases, gen, lib, tablecheck
 from vlib.oracle import Ref
 
 PROPERTY = 'C03'
@@ -53,7 +53,10 @@ def check_one(case, ctx, deep):
 
 
 def plan(tier, seed):
-    return tablecheck.plan(tier, seed, wide=True, tall=True, odd=True, thorough_cells=18, fixed=('chain:520',))
+    tasks = tablecheck.plan(tier, seed, wide=True, tall=True, odd=True, thorough_cells=18, fixed=('chain:520',))
+    if tier == 'thorough':
+        tasks = [{'kind': 'big-dense', 'n': 20, 'm': 40, 'fill': 0.85, 'seed': seed}] + tasks
+    return tasks
 
 
 def fixed_cases(name):
@@ -62,7 +65,33 @@ def fixed_cases(name):
     yield dict(bigcases.chain(int(size)), f='big-' + kind)
 
 
+def big_dense(ctx, task):
+    """A dense 20 x 40 table (about 10**5 concepts): no extent twice, as many concepts as the FCbO generator finds,
+    and the same number again with the rows reversed."""
+    import concepts
+    from concepts import algorithms
+    case = bigcases.dense(task['n'], task['m'], task['fill'], task['seed'])
+    plain = {'family': 'dense', **{k: task[k] for k in ('n', 'm', 'fill', 'seed')}}
+    ctx.case(plain, True, ['big-dense'])
+    counts = []
+    for tag, rows in (('', case['r']), ('rows-reversed/', case['r'][::-1])):
+        context = ctx.call(tag + 'Context()', plain, concepts.Context, case['o'], case['p'],
+                           gen.bools_of(dict(case, r=rows)))
+        lattice = ctx.call(tag + 'context.lattice', plain, lambda: context.lattice)
+        extents = {c._extent if hasattr(c, '_extent') else c.extent for c in lattice}
+        n_fcbo = ctx.call(tag + 'fast_generate_from', plain, lambda: sum(1 for _ in algorithms.fast_generate_from(context)))
+        ctx.check(len(extents) == len(lattice), tag + 'big/extent-twice', plain,
+                  lambda: f'{len(lattice)} concepts but {len(extents)} distinct extents')
+        ctx.check(len(lattice) == n_fcbo, tag + 'big/count', plain,
+                  lambda: f'len(lattice) = {len(lattice)}, the FCbO generator finds {n_fcbo}')
+        counts.append(len(lattice))
+    ctx.check(counts[0] == counts[1], 'big/count-under-row-reversal', plain, lambda: f'{counts[0]} vs {counts[1]} concepts')
+
+
 def run(task, ctx):
+    if task['kind'] == 'big-dense':
+        ctx.guarded(big_dense, ctx, task)
+        return
     tablecheck.run(task, ctx, check_one, fixed_cases=fixed_cases)
 
 
